@@ -50,6 +50,8 @@ explored inputs (sampled), never by proof.
    `docs_chain_maximal` (**proved**, for every strip FUNCTION).  GAP: the regex → function step (Rust `regex`) is a
    parameter; the two regex shapes of the check's queries are tied by correspondence only.  Which match's docs a
    name node gets: `queue_lowest_pattern_wins`, `queue_lowest_within_residence` (**proved**),
+   `queue_release_strict`, `queue_touching_head_replaced` (**proved**, round 11: a queued tag is not released while
+   the next name starts at or before its end, so a later lower-index match still replaces it),
    `queue_lowest_pattern_run_partial` (**partial**: arrival order).  Judge clause `docs`.
 6. "names that resolve to a local definition in an enclosing scope are omitted where the query asks for it" —
    `local_filter_spec`, `local_filter_iff` (**proved**), `record_def_spec`, `record_scopes_shape` (**proved**).
@@ -680,5 +682,42 @@ example :
   simp [runTags, run, initSt, wcfg, flushReady, ready, processMatch, processTag, tagOf, capLoop, Cfg.lookup, qInsert, key, keyLt,
     drain, cacheStep, utf16LenV, utf16Len, lossyUnits, slice, lineRange, docsOf, docsOfP, docTexts, joinDocs, Tag.isIgnored, usizeMax,
     isLocal, Option.filter, scan, maxLineLen]
+
+/-! ## Round 11: the release test of the queue is strict -/
+
+/-- **queue_release_strict (round 11).**  A queued tag is released only when the most recently queued tag starts
+STRICTLY behind its end: while the last entry's name starts at or before the head's name end (in particular when
+the two names TOUCH, `first.name.e = last.name.s`), `flushReady` pops nothing and the queue is unchanged. -/
+theorem queue_release_strict (n : Nat) (q : Queue) (first last : Tag × Nat)
+    (hf : q.head? = some first) (hl : q.getLast? = some last) (h : last.1.name.s ≤ first.1.name.e) :
+    ready q = false ∧ flushReady n q = ([], q) := by
+  have hr : ready q = false := by
+    unfold ready
+    rw [hl, hf]
+    simp
+    omega
+  refine ⟨hr, ?_⟩
+  cases n with
+  | zero => rfl
+  | succ k => unfold flushReady; simp [hr]
+
+/-- **queue_touching_head_replaced (round 11).**  "A tag is released only when no pending match can still replace it",
+the touching case: if the next name starts exactly where (or before) the head's name ends, the head survives the
+release step, and a match that arrives afterwards for the same name range with a lower pattern index replaces it. -/
+theorem queue_touching_head_replaced (n : Nat) (t : Tag) (p : Nat) (rest : Queue) (last : Tag × Nat)
+    (hl : ((t, p) :: rest).getLast? = some last) (h : last.1.name.s ≤ t.name.e)
+    (tag : Tag) (pat : Nat) (hk : key tag = key t) (hp : pat < p) :
+    qInsert tag pat (flushReady n ((t, p) :: rest)).2 = (tag, pat) :: rest := by
+  rw [(queue_release_strict n ((t, p) :: rest) (t, p) last rfl hl h).2]
+  simp [qInsert, hk, hp]
+
+/-- Non-vacuity: `a1b` — `a` [0,1) queued by pattern 2, `1` [1,2) queued behind it (touching), then the pattern-0
+match for `a` arrives: it replaces the queued tag; with one byte between the names the head is released instead. -/
+example :
+    let a : Tag := { (default : Tag) with name := ⟨0, 1⟩ }
+    let one : Tag := { (default : Tag) with name := ⟨1, 2⟩ }
+    let far : Tag := { (default : Tag) with name := ⟨2, 3⟩ }
+    ready [(a, 2), (one, 1)] = false ∧ ready [(a, 2), (far, 1)] = true := by
+  decide
 
 end TsVerif.C18
